@@ -118,6 +118,46 @@ def docgraph_fails(order):
     return None
 
 
+def inplace_program_fails(order, pt, v):
+    """a recorded program that updates its independent variable in place (x[0] = x[0]*x[1]; the householder example of the
+    documentation does the same): every driver answers the same whatever was called before, at plain and at Taylor-polynomial
+    points -- the value of the closed form f(x) = sum(u*u + sin(u)), u = (x0*x1, x1, ...)"""
+    def record():
+        cg = algopy.CGraph()
+        fx = algopy.Function(np.array([0.5, -1.5, 2.0][:len(pt)]))
+        fx[0] = fx[0] * fx[1]
+        fz = algopy.sum(fx * fx + algopy.sin(fx))
+        cg.trace_off()
+        cg.independentFunctionList = [fx]
+        cg.dependentFunctionList = [fz]
+        return cg
+    pt = np.array(pt, dtype=float)
+    c0 = np.zeros((2, 2) + pt.shape)
+    c0[0] = pt
+    c0[1, 0] = v
+    c0[1, 1] = v[::-1]
+    calls = {'gradient': lambda g: g.gradient(pt.copy()), 'jacobian': lambda g: g.jacobian(pt.copy()),
+             'jacobian-utpm': lambda g: g.jacobian(UTPM(c0.copy())).data, 'hess_vec': lambda g: g.hess_vec(pt.copy(), np.array(v)),
+             'jacobian-utpm-same-object': None}
+    cg = record()
+    held = UTPM(c0.copy())                   # one caller-owned polynomial passed again and again
+    done = []
+    for k in order:
+        try:
+            if k == 'jacobian-utpm-same-object':
+                got = np.array(cg.jacobian(held).data)
+                want = np.array(record().jacobian(UTPM(c0.copy())).data)
+            else:
+                got = np.asarray(calls[k](cg), dtype=float)
+                want = np.asarray(calls[k](record()), dtype=float)
+        except Exception as ex:
+            return 'inplace-program-exception: cg.%s raised %s after %s' % (k, type(ex).__name__, done or ['recording'])
+        if got.shape != want.shape or not np.allclose(got, want, rtol=1e-12, atol=1e-13):
+            return 'inplace-program-%s: after %s the call differs from the same call on a fresh graph (program updates its independent in place)' % (k, done or ['recording'])
+        done.append(k)
+    return None
+
+
 def history_fails(case):
     prog, N = case['prog'], case['N']
     try:
@@ -245,6 +285,8 @@ def nontrivial(case):
 def replay_case(ctx, case):
     if 'docgraph' in case:
         return docgraph_fails(case['docgraph'])
+    if 'inplace_program' in case:
+        return inplace_program_fails(case['inplace_program'], case['pt'], case['v'])
     return history_fails(case)
 
 
@@ -258,6 +300,16 @@ def run(ctx):
         f = docgraph_fails(order)
         if f:
             ctx.report({'docgraph': order}, 'failure', f)
+    names2 = ['gradient', 'jacobian', 'jacobian-utpm', 'hess_vec', 'jacobian-utpm-same-object']
+    for i in range(12 if ctx.tier == 'quick' else 120):
+        order = (['jacobian-utpm-same-object'] * 3) if i == 0 else [rng.choice(names2) for _ in range(rng.randint(2, 5))]
+        n_ = rng.choice([2, 3])
+        case = {'inplace_program': order, 'pt': rand_coeffs(rng, (n_,), -2, 2), 'v': rand_coeffs(rng, (n_,), -1, 1)}
+        ctx.evaluations += 1
+        ctx.count('inplace-program-history')
+        f = inplace_program_fails(order, case['pt'], case['v'])
+        if f:
+            ctx.report(case, 'failure', f)
     for case in kernel_cases(rng):
         ctx.evaluations += 1
         ctx.count('kernel-history')
